@@ -1,6 +1,9 @@
 (** C01 — a holder commitment is revoked only after its successor is counter-signed.
     Statements only; proofs are in Proofs/EnforcementProofs.v. *)
 From VLS Require Import Base.U64 Model.Enforcement Proofs.EnforcementProofs.
+From Coq Require String.
+From VLS Require Gen.EnforcementGen Gen.EnforcementRulesGen Proofs.EnforcementGenProofs
+  Proofs.EnforcementRulesGenProofs Proofs.RustFacts.
 
 (** The filter may downgrade any tag except the four this property rests on. *)
 Definition c01_filter (warn : tag -> bool) : Prop :=
@@ -73,3 +76,57 @@ Proof.
   exists (mkE 1 (Some 0) None false 0 0 None None None None []), 18446744073709551614.
   vm_compute. repeat split; congruence.
 Qed.
+
+(** The holder-side checks of the model are the ones in the source.  Gen/EnforcementRulesGen.v is the
+    statement-by-statement translation (tools/gen_rustfn.py, regenerated on every run) of
+    SimpleValidator's validate_holder_commitment_tx - the whole body; the answer [v] of its call of
+    validate_commitment_tx (the model's [pol_ok]; translated and tied to the policy model under C05)
+    is a parameter - over the EnforcementState record of Gen/EnforcementGen.v.  For every model state
+    [e] (as the source-level state [to_res fr e]), every request, every filter and both build
+    profiles, its outcome - accepted, refused, panic ([status_of] forgets which tag refused) - is what
+    [do_validate] / [do_sign_redundant] compute after the point check: the content verdict first, then
+    [validate_holder_state]: retry-same against the current holder commitment (a panic when there is
+    none), holder-not-revoked, and no new state on a closed channel.  The filter of the source is a
+    function of the tag string; [etag_filter] reads it on the names of the model's tags
+    (TRetrySame = policy-commitment-retry-same, THolderNotRevoked = policy-commitment-holder-not-revoked,
+    TSpendsActive = policy-commitment-spends-active-utxo: one source tag each).
+    Side condition [next_h e < U64MAX]: the model adds [n + 1] and [n + 2] before the retry rule, the
+    source adds [n + 2] after it; the orders differ only in a debug build with
+    next_holder_commit_num = 2^64 - 1, n = 2^64 - 2 and a changed content (source: refused with
+    retry-same; model: abort). *)
+Theorem C01_holder_validation_checks_are_source :
+  forall (prof : profile) (swarn : String.string -> bool) (fr : EnforcementGenProofs.frame) (e : estate)
+         (v : trap (Rust.result unit)) (n pt setup cstate : N) (c : content),
+    next_h e < U64MAX ->
+    RustFacts.status_of
+      (EnforcementRulesGen.gen_validate_holder_commitment_tx prof swarn v (EnforcementGenProofs.to_res fr e)
+         n pt setup cstate c) =
+    EnforcementRulesGenProofs.after_content v
+      (validate_holder_state (EnforcementRulesGenProofs.etag_filter swarn) prof e n c).
+Proof. exact EnforcementRulesGenProofs.gen_holder_checks_are_model. Qed.
+Print Assumptions C01_holder_validation_checks_are_source.
+
+(** ... and so is the advance of the holder side at a revocation: Validator::set_next_holder_commit_num
+    (provided method of the trait, not overridden) with EnforcementState::set_next_holder_commit_num
+    (Gen/EnforcementGen.v).  A number that is neither the next number nor its successor is refused
+    (policy-revoke-new-commitment-signed); the successor moves the state exactly like [advance_h] (the
+    counterparty signatures go to the frame; the pending next commitment, outside the translated
+    record, is cleared by channel.rs); the next number itself passes the guard and dies in the
+    assert_eq! of the state-level setter.  [do_revoke] only advances when [n = next_h e], i.e. with
+    the successor. *)
+Theorem C01_holder_advance_is_source :
+  forall (prof : profile) (swarn : String.string -> bool) (fr : EnforcementGenProofs.frame) (e : estate)
+         (num : N) (c : content) (sigs : N),
+    next_h e < U64MAX ->
+    EnforcementRulesGen.gen_set_next_holder_commit_num prof swarn (EnforcementGenProofs.to_res fr e) num c sigs =
+    if negb (num =? next_h e) && negb (num =? next_h e + 1)
+       && perr (EnforcementRulesGenProofs.etag_filter swarn) TRevokeNewSigned
+    then Val (Rust.ErrR (EnforcementRulesGenProofs.etag_name TRevokeNewSigned))
+    else if num =? next_h e + 1
+         then Val (Rust.OkR (EnforcementGenProofs.to_res
+                               (EnforcementGenProofs.mkF (Some sigs) (EnforcementGenProofs.f_initial fr)
+                                                         (EnforcementGenProofs.f_secrets fr))
+                               (advance_h e c)))
+         else Trap.
+Proof. exact EnforcementRulesGenProofs.gen_holder_advance_is_model. Qed.
+Print Assumptions C01_holder_advance_is_source.
